@@ -5,7 +5,7 @@ Import ListNotations.
 From Verif Require Import SendReq.Model SendReq.ProofsBound SendReq.ProofsSelect SendReq.ProofsLoop SendReq.ProofsFlags.
 
 Section Gen.
-Variable once : bool.
+Variable fixed : bool.
 
 Definition prev_ok (prev : option (nat * outcome)) (i : nat) : Prop :=
   match prev with Some (_, o) => o <> OSuccess /\ 0 < i | None => True end.
@@ -19,16 +19,16 @@ Definition result_ok (script : list outcome) (prev : option (nat * outcome)) (i 
   | _ => True
   end.
 
-Lemma loop_result c script : forall s prev i evs r, prev_ok prev i -> loop_gen once c script s prev i = (evs, r) -> result_ok script prev i evs r.
+Lemma loop_result c script : forall s prev i evs r, prev_ok prev i -> loop_gen fixed c script s prev i = (evs, r) -> result_ok script prev i evs r.
 Proof.
   induction script as [|o rest IH]; intros s prev i evs r OK H; rewrite loop_unfold in H;
-    pose proof (pre_spec once c s prev i) as P;
-    assert (P' : match pre once c s prev i with HRetry _ _ => True | HDone r0 _ =>
+    pose proof (pre_spec fixed c s prev i) as P;
+    assert (P' : match pre fixed c s prev i with HRetry _ _ => True | HDone r0 _ =>
                match r0 with RSuccess _ => False | RRegionErr j => j + 1 = i /\ exists t o, prev = Some (t, o) /\ is_region_err o = true | _ => True end end).
     1,3: (unfold pre; destruct prev as [[t o']|]; [|exact I]; destruct OK as [O1 O2];
-          pose proof (handle_q once c s t o' (pred i)) as HQ; destruct (handle once c s t o' (pred i)) as [|r0 e0]; [exact I|];
+          pose proof (handle_q fixed c s t o' (pred i)) as HQ; destruct (handle fixed c s t o' (pred i)) as [|r0 e0]; [exact I|];
           destruct r0; auto; destruct HQ as [-> HQ]; split; [lia|eauto]).
-  all: destruct (pre once c s prev i) as [s1 evs1|r0 evs1];
+  all: destruct (pre fixed c s prev i) as [s1 evs1|r0 evs1];
     [| injection H as <- <-; subst evs1; destruct r0; cbn; auto; try tauto; destruct P' as [P1 P2]; split; [cbn; lia|left; auto]].
   all: destruct P as [_ P2]; cbv zeta in H;
     pose proof (sel_phase_spec c (if 0 <? i then set_q_retry true s1 else s1)) as Q;
@@ -40,7 +40,7 @@ Proof.
       by (intros e; rewrite !n_attempts_app, P2, Q2; reflexivity).
     assert (SUCC : o = OSuccess -> result_ok (o :: rest) prev i (evs1 ++ evs2 ++ [EAtt t (q_rr s2) (q_stale s2) (q_retry s2)]) (RSuccess i)).
     { intros ->. unfold result_ok. rewrite A. rewrite Nat.sub_diag. cbn. repeat split; lia. }
-    assert (REC : o <> OSuccess -> forall evs' r', loop_gen once c rest (after_send s2 t) (Some (t, o)) (S i) = (evs', r') ->
+    assert (REC : o <> OSuccess -> forall evs' r', loop_gen fixed c rest (after_send s2 t) (Some (t, o)) (S i) = (evs', r') ->
               result_ok (o :: rest) prev i (evs1 ++ evs2 ++ EAtt t (q_rr s2) (q_stale s2) (q_retry s2) :: evs') r').
     { intros No evs' r' L. apply IH in L; [|split; [assumption|lia]].
       destruct r'; unfold result_ok in *; auto; rewrite A.
@@ -49,10 +49,10 @@ Proof.
         + injection E as <- <-. replace (i0 - i) with 0 by lia. cbn [nth length]. repeat split; try lia. exact L3.
         + replace (i0 - i) with (S (i0 - S i)) by lia. cbn [nth length]. repeat split; try lia. exact L4. }
     destruct o; try (injection H as <- <-; now apply SUCC);
-      (destruct (loop_gen once c rest (after_send s2 t) _ (S i)) as [evs' r'] eqn:L; injection H as <- <-; apply REC; [discriminate|first [assumption|reflexivity]]).
+      (destruct (loop_gen fixed c rest (after_send s2 t) _ (S i)) as [evs' r'] eqn:L; injection H as <- <-; apply REC; [discriminate|first [assumption|reflexivity]]).
 Qed.
 
-Lemma run_result c script rands sleeps evs r : run_gen once c script rands sleeps = (evs, r) ->
+Lemma run_result c script rands sleeps evs r : run_gen fixed c script rands sleeps = (evs, r) ->
   match r with
   | RSuccess j => j + 1 = n_attempts evs /\ nth j script OSuccess = OSuccess
   | RRegionErr j => j + 1 = n_attempts evs /\ j < length script /\ is_region_err (nth j script OSuccess) = true
@@ -76,7 +76,7 @@ Lemma retry_flags_all evs : att_all (fun _ _ d => d = true) evs -> Forall (fun d
 Proof. unfold att_all. induction 1 as [|e evs H _ IH]; cbn; auto. destruct e; cbn; auto. Qed.
 
 Lemma run_retry c script rands sleeps :
-  match retry_flags (fst (run_gen once c script rands sleeps)) with
+  match retry_flags (fst (run_gen fixed c script rands sleeps)) with
   | [] => True
   | d :: rest => d = false /\ Forall (fun x => x = true) rest
   end.
@@ -90,9 +90,9 @@ Proof.
      match retry_flags ([] ++ evs2 ++ EAtt t (q_rr s2) (q_stale s2) (q_retry s2) :: e) with [] => True | d :: rest => d = false /\ Forall (fun x => x = true) rest end).
   { intros e He. cbn [app]. rewrite retry_flags_app, retry_flags_noatt by assumption. cbn. split; [assumption|]. now apply retry_flags_all. }
   destruct script as [|o rest]; [cbn [fst]; apply (G []); constructor|].
-  pose proof (loop_retry once c rest (after_send s2 t) (Some (t, o)) 1 ltac:(left; lia)) as L.
+  pose proof (loop_retry fixed c rest (after_send s2 t) (Some (t, o)) 1 ltac:(left; lia)) as L.
   destruct o; try (cbn [fst]; apply (G []); constructor);
-    destruct (loop_gen once c rest (after_send s2 t) _ 1) as [e r]; cbn [fst] in *; apply G; assumption.
+    destruct (loop_gen fixed c rest (after_send s2 t) _ 1) as [e r]; cbn [fst] in *; apply G; assumption.
 Qed.
 
 End Gen.
